@@ -388,11 +388,21 @@ impl<'a, R: Clone> AsyncGlobalCache<'a, R> {
 
             // Expired - remove and continue
             drop(entry_ref);
-            self.cache.remove(key);
 
-            // Also remove from order queue to prevent orphaned keys
+            // Remove from the map and from the order queue in one critical section under the
+            // order lock (which every insert holds throughout). Removing from the map first
+            // would let a concurrent insert of the same key slip in between and lose its
+            // queue entry to the `retain` below. The entry is re-checked under the lock: it
+            // may have been replaced by a fresh one meanwhile, which must stay.
             let mut order = self.order.lock();
-            order.retain(|k| k != key);
+            let ttl = self.ttl;
+            self.cache.remove_if(key, |_, entry| match ttl {
+                Some(ttl) => now.saturating_sub(entry.1) >= ttl,
+                None => false,
+            });
+            if !self.cache.contains_key(key) {
+                order.retain(|k| k != key);
+            }
         }
 
         // Record cache miss
